@@ -167,16 +167,23 @@ class C07:
         if x[0] == "call" and x[1][0] == "attr" and x[1][2] == "reshape" and not x[3]:
             shape = x[2][0] if len(x[2]) == 1 and x[2][0][0] == "tuple" else ("tuple", tuple(x[2]))
             x = x[1][1]
-        if not (x[0] == "call" and x[1] in (("ext", "numpy.array"), ("ext", "numpy.asarray")) and x[2] and x[2][0][0] == "comp"):
+        if not (x[0] == "call" and x[1] in (("ext", "numpy.array"), ("ext", "numpy.asarray"), ("ext", "numpy.fromiter")) and x[2] and x[2][0][0] == "comp"):
             return None
         kw = callkw(x)
         dtype = kw.get("dtype", x[2][1] if len(x[2]) > 1 else None)
         comp = x[2][0]
         gens = list(comp[3])
         elt = comp[2]
-        if len(gens) == 1 and elt[0] == "comp" and elt[1] == "list" and len(elt[3]) == 1:
+        fromiter = x[1] == ("ext", "numpy.fromiter")
+        if fromiter:
+            # np.fromiter(<one value per pair>, dtype, count): a flat vector; the count, when given, must be the number of pairs
+            cnt = kw.get("count", x[2][2] if len(x[2]) > 2 else None)
+            n_pairs = (("bin", "*", LEN(src), LEN(tgt)), ("bin", "*", LEN(tgt), LEN(src)), ("const", -1), None)
+            if cnt not in n_pairs or dtype is None:
+                return None
+        if len(gens) == 1 and elt[0] == "comp" and elt[1] == "list" and len(elt[3]) == 1 and not fromiter:
             gens, elt = gens + list(elt[3]), elt[2]  # nested rows
-        elif shape is None or len(gens) != 2 or comp[1] != "list":
+        elif shape is None or len(gens) != 2 or comp[1] != ("gen" if fromiter else "list"):
             return None
         line = calls[0].lineno
         FLOAT64 = (("builtin", "float"), ("ext", "numpy.float64"), ("ext", "numpy.double"), ("ext", "numpy.float_"), ("const", "float64"),
@@ -291,9 +298,54 @@ class C07:
             ctx.ok("R07.5", f"{self.file}:{y0.lineno} match_geometries", "affinity = cost_matrix[source, target] for pairs, 0.0 for one-sided entries")
 
     # ------------------------------------------------------------------ R07.2 - R07.4
+    @staticmethod
+    def generator_view(s):
+        """`_select_matches` written as a function that fills one list and returns it (`out = [pairs]; out.extend(<one-sided rows>);
+        out.extend(<one-sided columns>); return out`, appends in loops) read as the generator of the same entries in the same
+        order: every fill phase becomes a loop with a yield.  A later phase that reads the list while it is being filled (`{r for
+        r, _ in out}`) sees the pairs of the first phase -- for the membership tests on one component that the rules look at, the
+        one-sided entries added meanwhile make no difference (their other component is None, their own one is distinct).
+        The summary itself when it already yields, or when it has another shape."""
+        import dataclasses
+        from sa.sym import AND as AND_, Event, TRUE
+        if s.yields or s.is_generator:
+            return s
+        rets = [r for r in s.of("return")]
+        if len(rets) != 1 or rets[0].term[0] != "alloc" or rets[0].term[1] != "list" or rets[0].loops:
+            return s
+        al = rets[0].term
+        first = None
+        events, loops = [], dict(s.loops)
+        for e in s.events:
+            touches = any(x == al for x in walk(e.term)) or any(x == al for x in walk(e.live))
+            if e is rets[0]:
+                continue
+            if not touches:
+                events.append(e)
+                continue
+            if e.kind != "call" or e.term[1][0] != "attr" or e.term[1][1] != al or len(e.term[2]) != 1 or e.term[3]:
+                return s
+            arg = e.term[2][0]
+            if first is not None:
+                arg = subst(arg, {al: first})
+            if e.term[1][2] == "append" and not any(x == al for x in walk(arg)):
+                events.append(Event("yield", e.live, arg, e.node, e.loops, e.idx, e.handlers, e.in_handler))
+            elif e.term[1][2] == "extend" and not e.loops and arg[0] == "comp" and arg[1] in ("list", "gen") and len(arg[3]) == 1 \
+                    and arg[3][0][0] in loops and not any(x == al for x in walk(arg)):
+                lid, it, conds = arg[3][0]
+                if first is None:
+                    first = ("comp", "list", arg[2], arg[3])
+                loops[lid] = dataclasses.replace(loops[lid], kind="for", conds=())
+                events.append(Event("yield", AND_(e.live, ("inloop", lid), *conds), arg[2], e.node, (lid,), e.idx, e.handlers, e.in_handler))
+            else:
+                return s
+        if first is None and not any(e.kind == "yield" for e in events):
+            return s
+        return dataclasses.replace(s, events=events, loops=loops, is_generator=True)
+
     def check_select(self, solver=True):
         ctx = self.ctx
-        s = ctx.summ.of_func(MATCH, "_select_matches")
+        s = self.generator_view(ctx.summ.of_func(MATCH, "_select_matches"))
         M = ("param", s.params[0])
         site = f"{self.file}:{s.node.lineno} _select_matches"
         lsa = [e for e in s.calls if e.term[1][0] == "ext" and e.term[1][1].endswith("linear_sum_assignment")]
@@ -315,10 +367,12 @@ class C07:
                     "the solver is not asked to maximise the total affinity of the unmodified matrix "
                     f"(argument {show(arg0)[:40]}, maximize={show(maxim)}): the pairing minimises overlap or uses other weights", lsa[0].lineno)
         # leftover sets
-        def rng(axis):
-            return ("call", ("builtin", "set"), (("call", ("builtin", "range"), (("sub", ("attr", M, "shape"), ("const", axis)),), ()),), ())
+        def rng(axis, kind="set"):
+            return ("call", ("builtin", kind), (("call", ("builtin", "range"), (("sub", ("attr", M, "shape"), ("const", axis)),), ()),), ())
 
         rows_t, cols_t = rng(0), rng(1)
+        if any(e.term[1][0] == "attr" and e.term[1][2] == "remove" and e.term[1][1] in (rng(0, "list"), rng(1, "list")) for e in s.calls):
+            rows_t, cols_t = rng(0, "list"), rng(1, "list")  # the leftovers kept as lists of indices: remove() takes the index out all the same
         ys = s.yields
         two, left_r, left_c, other = [], [], [], []
         for y in ys:
